@@ -249,6 +249,29 @@ theorem scale_mixed_spec (p : List K₁) (alpha : K₂) :
 example : denote (scaleG (1 : ℚ) (· * ·) (fun x y => (RingHom.id ℚ) x * (RingHom.id ℚ) y) [1, 2] 3)
     = ((denote ([1, 2] : List ℚ)).map (RingHom.id ℚ)).comp (C ((RingHom.id ℚ) 3) * X) := scale_mixed_spec _ _ _ _
 
+/-- `fast_multiply<FF2>` and `multiply<FF2>` (every threshold) with operands over different fields, each operand
+    transformed over its own field (executable model; the roots tables agree along the embeddings, as
+    `XFieldElement::primitive_root_of_unity` lifts the base-field root) -/
+theorem ntt_multiply_mixed_spec (hroot : RootOK root) (h2 : (2 : K) ≠ 0)
+    (hc₁ : RootCompat φ₁ root₁ root) (hc₂ : RootCompat φ₂ root₂ root) (threshold : Int)
+    (a : List K₁) (b : List K₂) (r : List K) :
+    (fastMultiplyG (FieldOps.ofField K₁ root₁) (FieldOps.ofField K₂ root₂) (fun x y => φ₁ x * φ₂ y)
+        (specTransform (FieldOps.ofField K₁ root₁)) (specTransform (FieldOps.ofField K₂ root₂)) (specTransform FK) a b
+        = some r → denote r = (denote a).map φ₁ * (denote b).map φ₂) ∧
+    (multiplyG (FieldOps.ofField K₁ root₁) (FieldOps.ofField K₂ root₂) FK (fun x y => φ₁ x * φ₂ y) threshold
+        (specTransform (FieldOps.ofField K₁ root₁)) (specTransform (FieldOps.ofField K₂ root₂)) (specTransform FK) a b
+        = some r → denote r = (denote a).map φ₁ * (denote b).map φ₂) := by
+  have hT := specTransform_spec root hroot h2
+  constructor
+  · intro h
+    rw [fastMultiplyG_eq root root₁ root₂ φ₁ φ₂ hc₁ hc₂] at h
+    rw [fast_multiply_spec root hT _ _ r h, denote_map, denote_map]
+  · intro h
+    rw [multiplyG_eq root root₁ root₂ φ₁ φ₂ hc₁ hc₂] at h
+    rw [multiply_spec root hT threshold _ _ r h, denote_map, denote_map]
+example : RootCompat (RingHom.id ℚ) exampleRoot exampleRoot := by
+  intro n; cases h : exampleRoot n <;> simp
+
 end Mixed
 
 end TF.C07
